@@ -133,7 +133,7 @@ REGISTRY = {
             {"name": "TestC17Assembler", "shards": 4, "shards_thorough": 16},
             {"name": "TestC17Line", "shards": 8, "shards_thorough": 16},
         ],
-        "require": {"c17:blocks:1": 2607, "c17:blocks:2": 747, "c17:blocks:3": 614, "c17:blocks:4": 1031, "c17:parse:extend": 874, "c17:parse:flip": 1179, "c17:parse:length": 900, "c17:parse:none": 1164, "c17:parse:truncate": 880, "c17a:block-0": 758, "c17a:block-0-lone": 769, "c17a:changed-header": 1365, "c17a:duplicate": 1231, "c17a:new-message": 1202, "c17a:next": 4804, "c17a:next-after-T4": 1339, "c17a:skipped-number": 896, "c17a:wrong-device": 1348, "c17a:wrong-direction": 1366, "c17l:in:bad-checksum": 704, "c17l:in:bad-length": 2074, "c17l:in:block-0": 47, "c17l:in:block-0-lone": 131, "c17l:in:changed-header": 30, "c17l:in:duplicate": 1551, "c17l:in:new-message": 136, "c17l:in:next": 21644, "c17l:in:next-after-T4": 2643, "c17l:in:skipped-number": 21, "c17l:in:wrong-device": 710, "c17l:in:wrong-direction": 151, "c17l:inbound": 4888, "c17l:out:blocks:1": 727, "c17l:out:blocks:2": 26, "c17l:out:blocks:3": 25, "c17l:out:blocks:4": 40, "c17l:out:forward": 129, "c17l:out:nak-retry": 644, "c17l:out:send": 690, "c17l:outbound": 620, "c17l:role:equipment": 101, "c17l:role:host": 5406},
+        "require": {"c17:blocks:1": 2607, "c17:blocks:2": 747, "c17:blocks:3": 614, "c17:blocks:4": 1031, "c17:parse:extend": 874, "c17:parse:flip": 1179, "c17:parse:length": 900, "c17:parse:none": 1164, "c17:parse:truncate": 880, "c17a:block-0": 758, "c17a:block-0-lone": 769, "c17a:changed-header": 1365, "c17a:duplicate": 1231, "c17a:new-message": 1202, "c17a:next": 4804, "c17a:next-after-T4": 1339, "c17a:skipped-number": 896, "c17a:wrong-device": 1348, "c17a:wrong-direction": 1366, "c17l:in:bad-checksum": 230, "c17l:in:bad-length": 218, "c17l:in:block-0": 132, "c17l:in:block-0-lone": 134, "c17l:in:changed-header": 253, "c17l:in:duplicate": 217, "c17l:in:new-message": 221, "c17l:in:next": 5065, "c17l:in:next-after-T4": 233, "c17l:in:skipped-number": 165, "c17l:in:wrong-device": 259, "c17l:in:wrong-direction": 245, "c17l:inbound": 754, "c17l:out:blocks:1": 748, "c17l:out:blocks:2": 216, "c17l:out:blocks:3": 179, "c17l:out:blocks:4": 297, "c17l:out:forward": 735, "c17l:out:nak-retry": 496, "c17l:out:send": 706, "c17l:outbound": 745, "c17l:role:equipment": 743, "c17l:role:host": 757},
     },
     "C18": {
         "level": "fault_enumeration",
